@@ -340,6 +340,7 @@ func c09Worker(ctx *core.Ctx) *core.Result {
 			types = []string{"ASA", "IOS", "Linux"}
 		}
 		stackCheck(ctx, x.res, types)
+		c09ScpFaults(ctx, x.res)
 	}
 	return x.res
 }
